@@ -116,7 +116,7 @@ def coverage_guided(ctx):
                    for j in range(k % 4)]
         corpus.append(D.enc_trace_buffer({'ver': 2, 'hdr_len': 32, 'time_flg': 1, 'endian': 0x42,
                                           'name': b'FANS        ', 'wrap': k, 'entries': entries}))
-    return fuzz.campaign('coverage-guided', 'trace', corpus, runs=300000, seed=ctx.seed, jobs=4, max_len=1024,
+    return fuzz.campaign('coverage-guided', 'trace', corpus, runs=60000, seed=ctx.seed, jobs=4, max_len=1024,
                          sig_prefix='C15.fuzz')
 
 
